@@ -95,7 +95,19 @@ func obsScores3(w *W, level int, s string) (b, t, e float64, ok bool) {
 		return 0, 0, 0, false
 	}
 	var p2, p3, p4 *lib.Panic
-	b, p2 = bv.Score()
+	// query order (determined by the string, so a replay repeats it): a quarter of the objects of the
+	// temporal and environmental level are asked from the top down - the object's own score (or severity)
+	// first, the base score last - the order of a client that only wants the final rating and looks at
+	// the base score afterwards
+	topDown := level > spec.LBase && Hash(s)%4 == 2
+	if topDown {
+		w.Count("objects_queried_top_down_(own_score_first,_base_score_last)")
+		if Hash(s)%8 == 6 {
+			o.Severity()
+		}
+	} else {
+		b, p2 = bv.Score()
+	}
 	switch level {
 	case spec.LTemp:
 		t, p3 = o.Score()
@@ -105,8 +117,16 @@ func obsScores3(w *W, level int, s string) (b, t, e float64, ok bool) {
 			w.Count("temporal_view_unavailable")
 			return 0, 0, 0, false
 		}
-		t, p3 = tv.Score()
-		e, p4 = o.Score()
+		if topDown {
+			e, p4 = o.Score()
+			t, p3 = tv.Score()
+		} else {
+			t, p3 = tv.Score()
+			e, p4 = o.Score()
+		}
+	}
+	if topDown {
+		b, p2 = bv.Score()
 	}
 	if p2 != nil || p3 != nil || p4 != nil {
 		w.Count("score_panicked")
